@@ -32,6 +32,7 @@ import (
 	apricotpb "github.com/AliceO2Group/Control/apricot/protos"
 	"github.com/AliceO2Group/Control/configuration/componentcfg"
 
+	"verif/harness/fakeconsul"
 	"verif/harness/vtrace"
 )
 
@@ -414,10 +415,71 @@ func payloadX(k string, ver int) string {
 	return "cfg:" + keyPath(k)
 }
 
+// the backing store under the one service of a sequence: a YAML file, or a fake Consul agent
+type sstore interface {
+	put(key, payload string)    // (external) write of o2/components/<key>
+	remove(key string)          // (external) removal
+	mirror(key, payload string) // the service itself wrote this: keep the harness' picture in step
+	commit()                    // make the external writes visible
+	service() *local.Service
+	faultOn(f []int) // existence checks (positions, from 1) of the next request cannot be answered
+	faultOff()
+	close()
+}
+
+type fileStore struct{ be *backend }
+
+func (f *fileStore) put(k, p string)    { f.be.put(k, p) }
+func (f *fileStore) remove(k string)    { f.be.remove(k) }
+func (f *fileStore) mirror(k, p string) { f.be.put(k, p) }
+func (f *fileStore) commit()            { f.be.write() }
+func (f *fileStore) service() *local.Service {
+	return f.be.service()
+}
+func (f *fileStore) faultOn(_ []int) { // the file is momentarily unparseable: every check of the request fails
+	if err := os.WriteFile(f.be.path, []byte("o2: [\"unterminated\n  - : :\n"), 0o644); err != nil {
+		fatal("break backend file: %v", err)
+	}
+}
+func (f *fileStore) faultOff() { f.be.write() }
+func (f *fileStore) close()    {}
+
+type consulStore struct{ srv *fakeconsul.Server }
+
+func (c *consulStore) put(k, p string)    { c.srv.PutString("o2/components/"+k, p) }
+func (c *consulStore) remove(k string)    { c.srv.Delete("o2/components/" + k) }
+func (c *consulStore) mirror(_, _ string) {}
+func (c *consulStore) commit()            {}
+func (c *consulStore) service() *local.Service {
+	svc, err := local.NewService(c.srv.URI())
+	if err != nil || svc == nil {
+		fatal("NewService(%s): %v", c.srv.URI(), err)
+	}
+	return svc
+}
+func (c *consulStore) faultOn(f []int) { // the i-th KV read of the request is answered with HTTP 500
+	n := 0
+	c.srv.SetScript(func(r *fakeconsul.Request) *fakeconsul.Fault {
+		if r.Op != fakeconsul.OpGet {
+			return nil
+		}
+		n++
+		for _, i := range f {
+			if i == n {
+				return &fakeconsul.Fault{Status: 500, Body: "scripted backend fault"}
+			}
+		}
+		return nil
+	})
+}
+func (c *consulStore) faultOff() { c.srv.SetScript(nil) }
+func (c *consulStore) close()    { c.srv.Close() }
+
 type sstep struct {
 	A     string     `json:"a"`
 	E     string     `json:"e"`
 	V     int        `json:"v"`
+	F     []int      `json:"f"`
 	Vars  [][]string `json:"vars"`
 	Parts []part     `json:"parts"`
 }
@@ -426,6 +488,7 @@ type scenario struct {
 	ID      int               `json:"id"`
 	Content map[string][]part `json:"content"`
 	Store   map[string]int    `json:"store"`
+	Backend string            `json:"backend"`
 	Steps   []sstep           `json:"steps"`
 }
 
@@ -442,7 +505,17 @@ func entryQuery(e string) *componentcfg.Query {
 }
 
 func doScenario(rec *vtrace.Recorder, sc *scenario, file string) {
-	be := newBackend(file)
+	var be sstore
+	switch sc.Backend {
+	case "", "file":
+		sc.Backend = "file"
+		be = &fileStore{newBackend(file)}
+	case "consul":
+		be = &consulStore{fakeconsul.New()}
+	default:
+		fatal("scenario %d: unknown backend %q", sc.ID, sc.Backend)
+	}
+	defer be.close()
 	content := M{}
 	for e, parts := range sc.Content {
 		be.put(entryPath[e], source(parts))
@@ -460,7 +533,13 @@ func doScenario(rec *vtrace.Recorder, sc *scenario, file string) {
 		}
 	}
 	svc := be.service() // ONE service for the whole sequence
-	rec.Emit("Reset", "scn", sc.ID, "content", content, "store", store)
+	rec.Emit("Reset", "scn", sc.ID, "content", content, "store", store, "backend", sc.Backend)
+	faults := func(f []int) []int {
+		if f == nil {
+			return []int{}
+		}
+		return f
+	}
 	for _, st := range sc.Steps {
 		switch st.A {
 		case "Process":
@@ -490,7 +569,7 @@ func doScenario(rec *vtrace.Recorder, sc *scenario, file string) {
 		case "Update":
 			src := source(st.Parts)
 			_, _, err := svc.ImportComponentConfiguration(entryQuery(st.E), src, false)
-			be.put(entryPath[st.E], src) // the harness' picture of the store follows what the service wrote
+			be.mirror(entryPath[st.E], src) // the harness' picture of the store follows what the service wrote
 			parts := st.Parts
 			if parts == nil {
 				parts = []part{}
@@ -502,21 +581,34 @@ func doScenario(rec *vtrace.Recorder, sc *scenario, file string) {
 			} else {
 				be.put(keyPath(st.E), payloadX(st.E, st.V))
 			}
-			be.write()
+			be.commit()
 			rec.Emit("ExternalEdit", "scn", sc.ID, "e", st.E, "path", keyPath(st.E), "v", st.V)
 		case "Resolve":
 			kq := keyQuery[st.E]
 			res := M{"comp": "", "rt": "", "role": "", "entry": ""}
 			ok, raw := false, ""
-			if r, err := svc.ResolveComponentQuery(mkQuery(&kq)); err == nil && r != nil {
+			if len(st.F) > 0 {
+				be.faultOn(st.F)
+			}
+			r, err := svc.ResolveComponentQuery(mkQuery(&kq))
+			if len(st.F) > 0 {
+				be.faultOff()
+			}
+			if err == nil && r != nil {
 				ok, raw = true, r.Raw()
 				res = M{"comp": r.Component, "rt": apricotpb.RunType_name[int32(r.RunType)], "role": r.RoleName, "entry": r.EntryKey}
 			}
-			rec.Emit("Resolve", "scn", sc.ID, "e", st.E, "path", keyPath(st.E), "ok", ok, "payload", raw, "res", res)
+			rec.Emit("Resolve", "scn", sc.ID, "e", st.E, "path", keyPath(st.E), "f", faults(st.F), "ok", ok, "payload", raw, "res", res)
 		case "GetX":
 			kq := keyQuery[st.E]
+			if len(st.F) > 0 {
+				be.faultOn(st.F)
+			}
 			g := got(svc.GetComponentConfiguration(mkQuery(&kq)))
-			rec.Emit("GetX", "scn", sc.ID, "e", st.E, "path", keyPath(st.E), "ok", g["ok"], "payload", g["payload"])
+			if len(st.F) > 0 {
+				be.faultOff()
+			}
+			rec.Emit("GetX", "scn", sc.ID, "e", st.E, "path", keyPath(st.E), "f", faults(st.F), "ok", g["ok"], "payload", g["payload"])
 		default:
 			fatal("scenario %d: unknown step %q", sc.ID, st.A)
 		}
@@ -565,6 +657,21 @@ func runScenarios(path, tracePath, file string) int {
 	fresh, _ := svc.GetAndProcessComponentConfiguration(q, v)
 	rec.Emit("Corner", "name", "processed-payload-after-import", "first", first, "importok", ierr == nil, "afterimport", stale,
 		"raw", rawNow, "afterinvalidate", fresh)
+	// measured, never judged: one unanswered existence check (HTTP 500) at the most specific, existing candidate
+	cs := &consulStore{fakeconsul.New()}
+	cs.put("c/PHYSICS/r/x", "exact")
+	cs.put("c/ANY/any/x", "fallback")
+	csvc := cs.service()
+	kq := keyQuery["Pr"]
+	cs.faultOn([]int{1})
+	fr, ferr := csvc.ResolveComponentQuery(mkQuery(&kq))
+	cs.faultOff()
+	fraw := ""
+	if ferr == nil && fr != nil {
+		fraw = fr.Raw()
+	}
+	cs.close()
+	rec.Emit("Corner", "name", "resolution-with-one-failed-existence-check", "query", "c/PHYSICS/r/x", "failed", ferr != nil, "resolved", fraw)
 	lines := rec.Lines()
 	if err := rec.Close(); err != nil {
 		fatal("%v", err)
